@@ -64,17 +64,39 @@ def load_table():
     return json.load(open(p)) if os.path.exists(p) else {}
 
 
+KEY_BY_NAME = bool(os.environ.get("VERIF_C14_KEYS_BY_NAME"))     # migration aid only
+
+
 def describe_place_key(f, key):
+    """Stable description of an indexed place for violation keys: the base local is named by its TYPE head, never by its
+    source name (renaming a local must not void a reviewed table line); field / variant projections are kept."""
     if key is None:
         return "?"
     l, path = key
-    n = f.local_name(l)
-    if not n:
-        if 1 <= l <= f.argc:
-            n = "arg%d" % l
-        else:
-            ty = f.local_ty(l).replace("&mut ", "").replace("&", "")
-            n = "<" + ty.split("<")[0].rsplit("::", 1)[-1] + ">"
+    if KEY_BY_NAME:
+        n = f.local_name(l)
+        if not n:
+            if 1 <= l <= f.argc:
+                n = "arg%d" % l
+            else:
+                ty = f.local_ty(l).replace("&mut ", "").replace("&", "")
+                n = "<" + ty.split("<")[0].rsplit("::", 1)[-1] + ">"
+        return n + "".join("." + p for p in path)
+    ty = f.local_ty(l).replace("&mut ", "").replace("&", "").strip()
+    while ty.startswith("std::rc::Rc<") or ty.startswith("std::boxed::Box<"):
+        ty = ty[ty.index("<") + 1:-1]
+    n = "<" + ty.split("<")[0].rsplit("::", 1)[-1].strip("[]; 0123456789") + ">"
+    if n == "<>":
+        n = "<slice>" if "[" in f.local_ty(l) else "<?>"
+    return n + "".join("." + p for p in path)
+
+
+def describe_place_name(f, key):
+    """Human-readable twin (source names) for messages."""
+    if key is None:
+        return "?"
+    l, path = key
+    n = f.local_name(l) or ("arg%d" % l if 1 <= l <= f.argc else "_%d" % l)
     return n + "".join("." + p for p in path)
 
 
@@ -382,8 +404,8 @@ def run(tier="quick", replay=None):
                     dv = op_int(divisor) if divisor else None
                     if dv is None and divisor is not None and op_local(divisor) is not None:
                         dv = const_arith(ctx, op_local(divisor))
-                    desc = "const" if dv is not None else (f.local_name(op_local(divisor)) or "_%s" % op_local(divisor)
-                                                            if divisor and op_local(divisor) is not None else "?")
+                    desc = "const" if dv is not None else ("var" if not KEY_BY_NAME else (
+                        f.local_name(op_local(divisor)) or "_%s" % op_local(divisor) if divisor and op_local(divisor) is not None else "?"))
                     key = site_key(f, "div", "%s by %s" % (t["msg"], desc))
                     how = "divisor: constant %d" % dv if dv not in (None, 0) else None
                     settle(f, key, site, "div", how,
